@@ -217,12 +217,30 @@ NEEDS = {
              "a small first fit, a change of branching factor, reset, and a second fit that fills the root",
     "C19-e": "jt_isim_unpacked reduces blocks of 256 rows in uint8: needs unpacked uint8 input and a cluster of "
              ">= 256 members with a bit set in all 256 rows of an aligned block",
+    "C01-f": "a seeded shuffle of recluster_inplace draws with Random(seed).choices (with replacement): needs "
+             "recluster_inplace(shuffle=True, seed=<int>); clusters are re-inserted twice or never",
+    "C02-e": "rows of a dense / memory-mapped 2-D input are yielded as views of one re-used scratch block of 256 "
+             "rows, and a cluster built from a buffer adopts the view: needs a tree rebuilt from a buffer FILE or "
+             "2-D array with more than 256 rows (multi-round merge rounds, _fit_buffers(path))",
+    "C05-f": "input_is_packed is no longer forwarded to the midsection rounds: needs unpacked input, "
+             "split_largest_after_each_midsection_round and >= 1 midsection round",
+    "C11-f": "diameter / radius from packed fingerprints sum bit-planes in reversed order and then cut to "
+             "n_features: needs packed input, an explicit n_features that is not a multiple of 8, and populated "
+             "trailing features",
+    "C13-e": "C++ _popcount_2d takes the 8-byte-word path for every width that is a multiple of 8 and counts "
+             "word PAIRS: needs an 8-byte aligned buffer and a row width = 8 mod 16 bytes with a non-zero last word",
+    "C14-f": "round buffer files are written through a mkstemp sibling '<name>.npy.<random>.tmp' and the next "
+             "round pairs files by a regex that is not anchored at the end: needs a crash inside the write of a "
+             "round buffer file, then a re-run in the same directory (the stale temporary is consumed)",
+    "C20-e": "the start-of-run purge of run_multiround_bitbirch globs '*.tmp': needs the monitor stopped between "
+             "closing max-rss.txt.tmp and renaming it while a run starts in the same directory (the monitor dies)",
 }
 EXTRA = {"C17-a": ["C10"], "C12-a": ["C07"], "C02-a": ["C12"], "C14-b": ["C05"], "C03-b": ["C07"], "C07-b": ["C03"],
          "C05-c": ["C09"], "C02-c": ["C08"], "C09-d": ["C18"], "C03-d": ["C02", "C05"],
          "C04-d": ["C17"], "C11-d": ["C19"], "C07-d": ["C02", "C12", "C08"], "C02-d": ["C03"],
          "C10-d": ["C11"], "C05-e": ["C02"], "C18-e": ["C02"], "C01-e": ["C09"], "C06-e": ["C17", "C04"],
-         "C08-e": ["C02"]}
+         "C08-e": ["C02"], "C20-e": ["C14"], "C07-e": ["C10"], "C10-e": ["C11"], "C04-e": ["C12", "C07"],
+         "C02-e": ["C05"]}
 
 
 def sh(cmd, **kw):
